@@ -838,7 +838,7 @@ class Folder:
                 repo_callee = None
             if not isinstance(repo_callee, (FuncInfo, ClassInfo)):
                 repo_callee = None
-        if e.keywords and repo_callee is None and name not in ("int", "dict", "enumerate", "itertools.product", "sorted", "max", "min", "functools.partial", "partial", "int.from_bytes") and not (isinstance(e.func, ast.Name) and isinstance(self.env.get(e.func.id), Abstract)) and not (isinstance(e.func, ast.Attribute) and dotted(e.func) and dotted(e.func).split(".")[0] in self.env):
+        if e.keywords and repo_callee is None and name not in ("int", "dict", "enumerate", "itertools.product", "itertools.groupby", "groupby", "sorted", "max", "min", "functools.partial", "partial", "int.from_bytes") and not (isinstance(e.func, ast.Name) and isinstance(self.env.get(e.func.id), Abstract)) and not (isinstance(e.func, ast.Attribute) and dotted(e.func) and dotted(e.func).split(".")[0] in self.env):
             raise Unfoldable(unparse(e))
         if isinstance(e.func, ast.Attribute) and e.func.attr == "to_bytes" and 1 <= len(args) <= 2:
             v = self.fold(e.func.value)
@@ -1159,6 +1159,18 @@ class Folder:
 
             rows = [list(r_) for r_ in self.fold(args[1])]
             return [self.fold(ast.Call(func=args[0], args=[_Const(v_) for v_ in row], keywords=[])) for row in rows]
+        if name in ("itertools.groupby", "groupby") and len(args) in (1, 2) and name.split(".")[0] not in self.env:
+            # runs of consecutive elements with equal keys, as (key, members) pairs - evaluated eagerly
+            seq = list(self.fold(args[0]))
+            kf = self.fold(args[1]) if len(args) == 2 else next((self.fold(k.value) for k in e.keywords if k.arg == "key"), None)
+            runs: list = []
+            for x_ in seq:
+                k_ = x_ if kf is None else call_value(self, kf, [x_])
+                if runs and runs[-1][0] == k_:
+                    runs[-1][1].append(x_)
+                else:
+                    runs.append((k_, [x_]))
+            return runs
         if name in ("itertools.chain.from_iterable", "chain.from_iterable") and len(args) == 1:
             out_c: list = []
             for part in self.fold(args[0]):
@@ -1213,7 +1225,9 @@ class Folder:
             pyk = {"bytes": bytes, "bytearray": bytearray, "int": int, "bool": bool, "str": str, "float": float, "complex": complex, "memoryview": memoryview, "object": object, "fractions.Fraction": Fraction, "Fraction": Fraction, "set": (set, frozenset), "frozenset": frozenset, "list": list, "tuple": tuple, "dict": dict}
             if all(k in pyk for k in kn) and not isinstance(v, Sym) and not isinstance(getattr(v, "_isa_", None), (set, frozenset)):
                 return any(isinstance(v, pyk[k]) for k in kn)  # type: ignore
-            if not isinstance(v, Abstract) and (v is None or isinstance(v, (int, str, float, bool, Fraction, list, tuple, dict, set, frozenset, bytes, bytearray, memoryview, ARange))):
+            import collections.abc as _cabc
+
+            if not isinstance(v, Abstract) and (v is None or isinstance(v, (int, str, float, bool, Fraction, list, tuple, dict, set, frozenset, bytes, bytearray, memoryview, ARange, _cabc.Iterator))):
                 # a plain value is an instance of the builtin classes listed, never of a class of the repository
                 res_ = False
                 known = True
